@@ -559,6 +559,7 @@ def site_key(site):
             d = ', '.join(show(nosite(a)) for a in site.cs.args())
         except Exception:
             d = ''
+    d = re.sub(r'\u27ea[^\u27eb]*\u27eb', '<str>', d)
     d = re.sub(r'\s+', ' ', d)[:200]
     return '%s|%s|%s|%s' % (site.kind, body.id, short(site.what) if site.kind != 'assert' else site.what, d)
 
